@@ -141,9 +141,35 @@ def gen_graph_and_subset(g: Gen, c: Contract):
     return {'self': scfg, 'subgraph': sub}
 
 
+def regionize(g: Gen, scfg, prob=0.3):
+    """with probability `prob` turn one plain block into a region whose exiting chain (depth 1-2, optionally with a latch
+    back edge inside) mirrors its targets - the shape the pipeline hands to the edit primitives as a region predecessor"""
+    r = g.rng
+    cands = [k for k, b in scfg.graph.items() if not isinstance(b, g.bb.SyntheticBranch) and not b.backedges]
+    if not cands or r.random() >= prob:
+        return None
+    k = r.choice(cands)
+    b = scfg.graph[k]
+    fwd = tuple(b._jump_targets)
+
+    def level(depth, name):
+        be = ('h' + name,) if r.random() < 0.4 else ()
+        jt = fwd + be if r.random() < 0.5 else be + fwd
+        if depth == 0:
+            return g.bb.BasicBlock(name=name, _jump_targets=jt, backedges=be)
+        sub = g.SCFG({'x' + name: level(depth - 1, 'x' + name)}, name_gen=scfg.name_gen)
+        return g.bb.RegionBlock(name=name, _jump_targets=fwd, backedges=(), kind='loop', header='x' + name, subregion=sub,
+                                exiting='x' + name, parent_region=None)
+    sub = g.SCFG({'x': level(r.choice([0, 0, 1]), 'x')}, name_gen=scfg.name_gen)
+    scfg.graph[k] = g.bb.RegionBlock(name=k, _jump_targets=fwd, backedges=(), kind='loop', header='x', subregion=sub, exiting='x',
+                                     parent_region=scfg.region)
+    return k
+
+
 def gen_insert(g: Gen, c: Contract):
     r = g.rng
     scfg = g.scfg(with_be=0.05)
+    regionize(g, scfg)
     keys = list(scfg.graph)
     P = r.sample(keys, r.randint(0, len(keys)))
     alltargets = sorted({t for b in scfg.graph.values() for t in b._jump_targets}) or ['a']
@@ -177,6 +203,7 @@ def gen_branch_replace(g: Gen, c: Contract):
 def gen_insert_ctrl(g: Gen, c: Contract):
     r = g.rng
     scfg = g.scfg(with_be=0.03)
+    regionize(g, scfg)
     keys = list(scfg.graph)
     P = r.sample(keys, r.randint(1, len(keys)))
     targeted = sorted({t for p in P for t in scfg.graph[p].jump_targets})
@@ -189,6 +216,7 @@ def gen_insert_ctrl(g: Gen, c: Contract):
 def gen_tails_exits(g: Gen, c: Contract):
     r = g.rng
     scfg = g.scfg(with_be=0.03)
+    regionize(g, scfg)
     keys = list(scfg.graph)
     T = r.sample(keys, r.randint(1, min(3, len(keys))))
     targeted = sorted({t for p in T for t in scfg.graph[p].jump_targets if t not in T})
@@ -362,7 +390,34 @@ def gen_args(g: Gen, c: Contract):
 
 
 def snapshot(v):
-    return copy.deepcopy(v)
+    """pre-state copy for `old`: blocks are frozen values, so a graph is copied level-locally (same block objects, hence the
+    same sub-graph objects inside region blocks: a region is compared by the identity of its sub-graph, as in value mode;
+    what happens inside sub-graphs is the hierarchy clause's business)"""
+    if type(v).__name__ == 'SCFG':
+        from numba_scfg.core.datastructures.scfg import SCFG, NameGenerator
+        c = SCFG(dict(v.graph), name_gen=NameGenerator(kinds=dict(v.name_gen.kinds)))
+        c.name_gen.kinds.clear()
+        c.name_gen.kinds.update(v.name_gen.kinds)
+        object.__setattr__(c, 'region', v.region)
+        return c
+    if type(v).__name__ == 'ConcealedRegionView':
+        return snapshot(v.scfg).concealed_region_view
+    if isinstance(v, list):
+        return [snapshot(x) for x in v]
+    if isinstance(v, tuple):
+        return tuple(snapshot(x) for x in v)
+    if isinstance(v, (set, frozenset)):
+        return set(v)
+    if type(v).__name__ == 'defaultdict':
+        d = type(v)(v.default_factory)
+        for k, x in v.items():
+            d[k] = set(x) if isinstance(x, set) else copy.copy(x)
+        return d
+    if isinstance(v, dict):
+        return {k: snapshot(x) for k, x in v.items()}
+    if type(v).__name__ in ('NameGenerator', 'FlowInfo'):
+        return copy.deepcopy(v)
+    return v
 
 
 def describe(v):
@@ -476,6 +531,11 @@ def check_case(c: Contract, fn, args, ns=None, ignore_known=False):
                 return Outcome('known', kid)
         except Exception:
             pass
+    hier_pre = None
+    preds_key = 'predecessors' if 'predecessors' in args else ('tails' if 'tails' in args else None)
+    if preds_key and type(args.get('self')).__name__ == 'SCFG':
+        from rtc.wrappers import hierarchy_pre
+        hier_pre = hierarchy_pre(args['self'], args[preds_key])
     allowed = {}
     for exc, text in c.raises.items():
         try:
@@ -508,6 +568,12 @@ def check_case(c: Contract, fn, args, ns=None, ignore_known=False):
             return Outcome('fail', {'clause': 'post[%s]' % cn, 'error': repr(e)[:200]})
         if not ok:
             return Outcome('fail', {'clause': 'post[%s]' % cn, 'result': describe(res)})
+    if hier_pre:
+        # hierarchy clause (C14/C04): the exiting chain of a region predecessor is re-targeted identically down to the leaf
+        from rtc.wrappers import hierarchy_post
+        msg = hierarchy_post(args['self'], args[preds_key], hier_pre)
+        if msg:
+            return Outcome('fail', {'clause': 'post[hierarchy]', 'message': msg})
     # frame: parameters not listed in `modifies` keep their value
     for n in c.params:
         if any(m == n or m.startswith(n + '.') for m in c.modifies):
